@@ -2,6 +2,18 @@
 from props_table import PROPS
 
 META = {
+    "C09": {
+        "text": "Lean 4 theorems over a model of the verified registry together with the DataCap token ledger it governs (frc46 modelled as an ideal ledger), following the Rust control flow of every registry/token method: in every reachable state supply = sum of balances = minted - burnt (ghost counters); only the governor mints/destroys; a grant lowers the verifier's allowance by exactly the grant and mints exactly it; the registry's balance equals the total size of unclaimed allocations; each allocation id ends at most once (claimed or refunded, never both, ids never reused) and a claim happens only by the named provider for matching client/data/size inside expiration and term, burning exactly the claimed size. Tied to the code on every run by differential execution of generated histories (grants, direct and operator transfers with allocation/extension requests, claim batches with repeated/foreign/mismatched/expired entries in both all-or-nothing modes, expirations, removals, term extensions, datacap removal, raw token calls) on the real verifreg+datacap actors in the harness VM against the compiled model, with an independent oracle on the real state after every message.",
+        "design_ref": "DESIGN.md §7 C09 / C10",
+        "note": "Trusted: Lean kernel (propext, Classical.choice, Quot.sound only); frc46_token, HAMTs, CBOR modelled as ideal containers (real ones run in the correspondence); harness VM in place of ref-fvm; senders are never the registry/token actor themselves. Theorems named *_partial state what part is not proved.",
+        "technique": "Lean 4 invariant proofs over a two-actor model + differential correspondence of model and real actors + independent oracle",
+    },
+    "C10": {
+        "text": "Lean 4 theorems over the registry claims ledger and a model of the miner's validate_extension_declarations/extend_simple_qap_sector: a claim's term_max never decreases along any history; claims/allocations leave their tables only after expiry (or by being claimed); an extension with distinct declared claim ids succeeds only if every maintained claim's maximum term covers the new expiration, claims are dropped only in the final 30 days, and the new verified weight is the maintained space. The unchanged code does not reject a repeated claim id (finding F2): the negation is a proved concrete witness, the same history is replayed on the real miner+verifreg+datacap actors on every run and reported through known_findings.json until the fix lands. Sector scenarios (onboard a sector with two verified pieces by ProveCommitSectors3, PoSt, extend with arbitrary maintain/drop declarations) are diffed step by step against the model, plus the generic registry histories of C09.",
+        "design_ref": "DESIGN.md §7 C09 / C10, §8 F2",
+        "note": "sector_claims_inv is _partial: the cross-actor invariant is proved for extension steps from a state satisfying it, not across onboarding/termination (those run on the real actors under the oracle only). Trusted base as C09 plus the reduced sector record.",
+        "technique": "Lean 4 decision-logic/invariant proofs + proved negation witness + differential correspondence on real actors + independent oracle",
+    },
     "C16": {
         "text": "Lean 4 theorems over a model of the paych actor that follows the Rust control flow: acceptance soundness (update_sound), exact owed delta, lane-nonce monotonicity and no_replay over arbitrary later histories, 0 <= owed <= balance in every reachable state (inv_owed), settlement height only extends, collect_exact and collect_after_delay (>= settle epoch + 1440). The model is tied to the code on every run by differential execution of generated voucher/settle/collect histories on the real actor in the harness VM against the compiled model, with an independent oracle evaluating the property on the real state.",
         "design_ref": "DESIGN.md §7 C16",
